@@ -8,7 +8,7 @@ VARIABLES i, bad
 vars == <<i, bad>>
 Init == i = 1 /\ bad = <<>>
 Next == /\ i <= Len(Rec) /\ i' = i + 1
-        /\ bad' = IF ReadOK(Rec[i]) THEN bad ELSE Append(bad, i)
+        /\ bad' = IF (IF "kind" \in DOMAIN Rec[i] THEN CompOK(Rec[i]) ELSE ReadOK(Rec[i])) THEN bad ELSE Append(bad, i)
 Spec == Init /\ [][Next]_vars
 Report == (i = Len(Rec) + 1) => PrintT(<<"VERDICT", Len(Rec), ToJson(bad)>>)
 =============================================================================
